@@ -27,8 +27,34 @@ esac
 prop="${1:?property id}"; tier="${2:-${VERIF_TIER:-quick}}"
 build
 case "$prop" in
-  C20) exec python3 "$V/pam/pamcheck.py" "$prop" "$tier";;
+  C20) python3 "$V/pam/pamcheck.py" "$prop" "$tier"; rc=$?;;
+  *)   "$V/bin/wacheck" -prop "$prop" -tier "$tier" -repo /repo -verif "$V"; rc=$?;;
 esac
-"$V/bin/wacheck" -prop "$prop" -tier "$tier" -repo /repo -verif "$V"
-rc=$?
+if [ "$tier" = "thorough" ]; then
+  # positive controls: every one-edit mutant of this property (applied in memory / to a temp copy, never to /repo)
+  # must still make its rule fire; the outcome is recorded in the evidence file (informational, does not change the verdict)
+  if [ "$prop" = "C20" ]; then python3 "$V/tools/pam_mutants.py" > "$V/evidence/.selftest.$prop" 2>&1
+  else python3 "$V/tools/mutants.py" "$prop" > "$V/evidence/.selftest.$prop" 2>&1; fi
+  python3 - "$V" "$prop" <<'PY'
+import json, sys, os, re
+V, prop = sys.argv[1], sys.argv[2]
+f = os.path.join(V, "evidence", prop + ".json"); st = os.path.join(V, "evidence", ".selftest." + prop)
+try:
+    ev = json.load(open(f)); lines = open(st).read().splitlines()
+    res = {"caught": 0, "missed": [], "skipped": 0, "nocompile": 0}
+    for l in lines:
+        w = l.split()
+        if not w: continue
+        if w[0] == "caught": res["caught"] += 1
+        elif w[0] in ("MISSED", "other-rule"): res["missed"].append(w[1])
+        elif w[0] == "skip": res["skipped"] += 1
+        elif w[0] == "nocompile": res["nocompile"] += 1
+    ev["coverage"]["positive_controls"] = {"what": "one-edit mutants of this property's anchors, each must make the named rule fire (checker self-test)", **res}
+    json.dump(ev, open(f, "w"), indent=1)
+    print("positive controls: %d mutants caught, %d missed %s, %d skipped" % (res["caught"], len(res["missed"]), res["missed"], res["skipped"] + res["nocompile"]))
+except Exception as e:
+    print("positive controls: could not be recorded:", e)
+os.path.exists(st) and os.remove(st)
+PY
+fi
 exit $rc
